@@ -150,9 +150,13 @@ class AnsiDecoder:
             elif sgr:
                 # Translate in to semi-colon separated codes
                 # Ignore invalid codes, because we want to be lenient
-                codes = [
-                    min(255, int(_code)) for _code in sgr.split(";") if _code.isdigit()
-                ]
+                codes = []
+                for _code in sgr.split(";"):
+                    if _code.isdigit():
+                        # str.isdigit accepts characters that int() rejects (e.g. "\u00b2"),
+                        # and int() limits the number of digits
+                        with suppress(ValueError):
+                            codes.append(min(255, int(_code)))
                 iter_codes = iter(codes)
                 for code in iter_codes:
                     if code == 0:
